@@ -83,7 +83,7 @@ fn main() {
         let ctx = Ctx::new("C02", Tier::Quick);
         let mut st = tree::driver::TreeStats::default();
         let t0 = Instant::now();
-        let starts = tree::driver::build_starts(&ctx, &mut st);
+        let starts = tree::driver::build_starts(&ctx, &|_| true, &mut st);
         println!("build_starts {:?}", t0.elapsed());
         let core = Core::new(1, 5);
         tree::driver::with_world(false, |world| {
@@ -101,7 +101,7 @@ fn main() {
                 let model = world.run_model(&starts.genesis, &p);
                 tm += t.elapsed().as_secs_f64();
                 let t = Instant::now();
-                let d = tree::cmp::compare(world, &p, &real, &model);
+                let d = tree::cmp::compare(world, &starts.genesis.mstate, &p, &real, &model);
                 tc += t.elapsed().as_secs_f64();
                 assert!(d.is_empty());
             }
